@@ -43,7 +43,7 @@ RULE = ("label cases: rose trees (arity 1-4) whose nodes are unnamed / 'NoName' 
 OPEN_GOALS: list = []
 TECHNIQUE = ("Coq proofs (induction on the pre-order name list, pigeonhole bound for the skipping counter, reflection over the generated dispatch table) of the naming and dispatch laws; "
              "models tied to the code by random correspondence evaluated with vm_compute; process-level clauses checked end-to-end on the same sample")
-LEVEL_TEXT = ("Machine-checked for trees of any size and shape: label_internal terminates, keeps the shape and every given name, gives every unnamed node a non-empty generated name "
+LEVEL_TEXT = ("Whole command on binary inputs (Model/CliRun.v): for input files with the leaf mapping given or inferred from the <species>_<id> convention (cli_wf_any), every written object parses back to a solution whose evaluated cost is the printed minimum, objects are pairwise distinct and one per solver result, written trees have pairwise distinct non-empty names with given names untouched and O#/S# elsewhere, all contains any with the same minimum inside the coherent region, super-reconciliation without syntenies writes nothing. Machine-checked for trees of any size and shape: label_internal terminates, keeps the shape and every given name, gives every unnamed node a non-empty generated name "
               "with strictly increasing, minimal indices in pre-order, all names pairwise distinct when the given ones are, and is idempotent; get_species_mapping picks the first "
               "underscore-terminated prefix that names a species (case-insensitive); over the table regenerated from cli/reconcile.py the seven documented keys are present, every "
               "super-reconciliation algorithm without syntenies is refused and every other combination runs. "
